@@ -539,6 +539,8 @@ func runC01(c *Ctx) {
 		return strings.HasPrefix(k, "lease-released-only-by-owner-expiry-or-confirmed-spend") || strings.HasPrefix(k, "lease-bucket-writer")
 	})
 	checkSeekHeightNonNegative(c, "C01-R1")
+	// "that no known transaction spends" is read off the credit's spent bit by the correction passes
+	checkFlagBytesReadThroughMasks(c, "C01-R1")
 	checkArithmeticAccumulators(c, "C01-R2", "wtxmgr")
 
 	// fetchCredits flag bindings: the flags are identified by role (which test they switch off), not by name or
